@@ -26,7 +26,7 @@ TECHNIQUE = 'runtime monitoring under stress: golden results from a fresh proces
 RULE = ('corpus = ~170 unique inputs (valid and invalid statements x parse_sql in 3 dialects, plan_query over federated / versioned-model / '
         'time-series queries, SqlalchemyRender in 4 dialects); each judged under >= 2 of the axes {threads, history, hashseed, catalog re-use}; '
         'non-trivial = input judged under >= 2 schedules / histories / seeds; distinct by (input, axis)')
-RULE += "; also: syntax errors of every shape (mutations), joins on several key pairs, nested selects shared between statements, renderers built from the caller's dialect object, the prepare API; golden results from a process that has only imported the library (fork per input); dialect class attributes in the monitored class state"
+RULE += "; also: syntax errors of every shape (mutations), joins on several key pairs, nested selects shared between statements, renderers built from the caller's dialect object (also the classes of several drivers sharing one dialect name), the prepare API; golden results from a process that has only imported the library (fork per input); dialect class attributes in the monitored class state"
 RULE += '; star / star-alias statements and names spelled like keywords; cold-start rounds (a fresh process whose first library calls are made by 8 threads at once)'
 ASSUMPTIONS = ['golden = result in a fresh process, PYTHONHASHSEED=0, fresh argument objects, fixed order (a shuffled-order run must reproduce it)',
                'interleavings are sampled (yield injection at line granularity), not enumerated',
@@ -165,6 +165,12 @@ def corpus(seed):
                                 ('select cast(a as float) from t limit 2 offset 1', 'mssql-object'), ('select cast(a as date), b from t', 'sqlite-object'),
                                 ('insert into t (a, b) values (1, 2), (3, 4)', 'mssql-object'), ('select cast(a as float) from t', 'mssql')]):
         out.append((f'render-obj:{i}', 'render', (s, d)))
+    # dialect CLASSES of different drivers that share one dialect name (their compilers differ, e.g. in how `%` is written), next to
+    # renderers built from that name: what one of them writes must not depend on which of them rendered first in the process
+    mod_stmt = 'select a % 2, b from t where c % 3 = 1'
+    for i, d in enumerate(['postgresql.pg8000-object', 'postgres', 'postgresql.psycopg2-object', 'postgresql', 'mysql.pymysql-object', 'mysql',
+                           'mysql.mysqlconnector-object', 'postgresql.pg8000-object', 'sqlite.pysqlite-object', 'sqlite']):
+        out.append((f'render-driver:{i}', 'render', (mod_stmt if i % 2 == 0 or i < 4 else "select a % 2 from t where b like '50%'", d)))
     # casts to every type name, per dialect (a dialect compiler may warn about or drop a cast it cannot express)
     k = 0
     for ty in ('boolean', 'bool', 'float', 'int', 'integer', 'date', 'datetime', 'char', 'varchar', 'text', 'double', 'decimal', 'json', 'bigint', 'timestamp'):
